@@ -42,8 +42,15 @@ def _gen(rng):
         else:
             body = [(0, 1, 1, 2), (1, 1, 5, None), (0, 1, 1, 2), (1, 1, 5, None), (0, 1, 0, 13)]
         return 'small_infinite_loop', gen.gen_random(rng, False, 0, 3) + body + gen.gen_random(rng, True, 0, 3)
-    if k < 0.62:
+    if k < 0.58:
         return 'countdown', gen.tmpl_countdown(rng)
+    if k < 0.62:
+        return 'nested', gen.tmpl_nested(rng)
+    if k < 0.68:
+        # pre-execution runs into an output-encoding error (optimize must return an error, not act on it)
+        pre = gen.print_chars([rng.choice(gen.HOSTILE) for _ in range(rng.randint(0, 3))], 3, rng.choice([1, 2]))
+        bad = gen.print_chars([rng.choice(gen.UNENCODABLE)], 3, rng.choice([1, 2]))
+        return 'unencodable_in_prefix', pre + bad + gen.gen_random(rng, True, 0, 3)
     if k < 0.75:
         return 'handover', gen.tmpl_handover(rng)
     name, prog = gen.gen_case(rng, allow_input=True)
